@@ -7,6 +7,7 @@ nothing is printed. The substring @FILE@ in a line is replaced by the source fil
 """
 import json
 import os
+import re
 import sys
 
 here = os.path.dirname(os.path.abspath(__file__))
@@ -28,7 +29,14 @@ if files and files[0].endswith(".ctu-info"):
         n += 1
     json.dump(got, open(os.path.join(here, "received-%d.json" % n), "w"))
     sys.exit(0)
-src = target[:-5] if target.endswith(".dump") else target
+src = re.sub(r"(\.\d+)?\.dump$", "", target)      # t.c.dump or t.c.<pid>.dump; with a build dir the name is <base>.aN.dump
+try:
+    head = open(target, errors="replace").read(20000)
+    m = re.search(r'<file index="0" name="([^"]*)"', head)
+    if m:
+        src = m.group(1)
+except OSError:
+    pass
 for line in case["lines"]:
     sys.stdout.write(line.replace("@FILE@", os.path.basename(src)) + "\n")
 sys.stdout.flush()
